@@ -361,9 +361,9 @@ tail mechanics of `EventHandler` issue exactly the calls of the recursive writer
 and every continuation of the event stream. -/
 theorem handler_is_tree_writer (cfg : Cfg) (c : Content) (M : NsMap) (it : Bool) (cs : List Call)
     (h : calls tblNsEnv (.content M it) c = some cs)
-    (ps : List NsMap) (pre : List Pfx) (pp : List (List Pfx)) (lv : Int) (pe : Bool) (rest : List Ev) :
-    hLoop tblNsEnv cfg false ⟨M, some ps, none, [], it, none, pre :: pp, lv, pe⟩ (flatten c ++ rest)
-      = prepend cs (hLoop tblNsEnv cfg false ⟨M, some ps, none, [], tailAfter it c, none, pre :: pp, lv, pe⟩ rest) :=
-  (l1_all tblNsEnv cfg c).1 M it cs h ps pre pp lv pe rest
+    (ps : List NsMap) (pre : List Pfx) (pp : List (List Pfx)) (lv : Int) (pe : Bool) (ac : Bool) (rest : List Ev) :
+    hLoop tblNsEnv cfg false ⟨M, some ps, none, [], it, none, pre :: pp, lv, pe, ac⟩ (flatten c ++ rest)
+      = prepend cs (hLoop tblNsEnv cfg false ⟨M, some ps, none, [], tailAfter it c, none, pre :: pp, lv, pe, ac⟩ rest) :=
+  (l1_all tblNsEnv cfg c).1 M it cs h ps pre pp lv pe ac rest
 
 end Props.C03
